@@ -23,7 +23,9 @@ Scenarios == DOMAIN Ops
 
 ValueKinds == {"corrupt", "truncate", "short", "missing"}       \* only a read returns a value
 \* outage: error before effect for this operation AND every later one (store unreachable from here on; defeats any retry)
-Kinds(op) == {"err_before", "err_after", "outage"} \cup (IF op = "get" THEN ValueKinds ELSE {})
+\* vanish: no failure at all - the key is gone (evicted, flushed, deleted by a concurrent sign-out) at the moment the write arrives,
+\* and the write itself answers normally.  Whatever the implementation makes of that: a cookie it hands out must load.
+Kinds(op) == {"err_before", "err_after", "outage"} \cup (IF op = "get" THEN ValueKinds ELSE {}) \cup (IF op = "set" THEN {"vanish"} ELSE {})
 
 \* the serve decision depends on this operation (it precedes and feeds it); failures after the decision may be answered either way
 Decisive(scn, k) ==
@@ -35,9 +37,9 @@ Persists(scn, k) == Ops[scn][k] = "set"
 
 Fault(k, kind) == [k |-> k, kind |-> kind]
 FaultSets(scn) ==
-    LET single == {<<Fault(k, kd)>> : k \in 1..Len(Ops[scn]), kd \in {"err_before", "err_after", "outage"} \cup ValueKinds}
+    LET single == {<<Fault(k, kd)>> : k \in 1..Len(Ops[scn]), kd \in {"err_before", "err_after", "outage", "vanish"} \cup ValueKinds}
         valid1 == {f \in single : f[1].kind \in Kinds(Ops[scn][f[1].k]) /\ (scn = "ready_after_ok" => f[1].k = 2 /\ f[1].kind = "outage")}
-        pairs  == {<<f1[1], f2[1]>> : f1 \in {f \in valid1 : f[1].kind # "outage"}, f2 \in valid1}
+        pairs  == {<<f1[1], f2[1]>> : f1 \in {f \in valid1 : f[1].kind \notin {"outage", "vanish"}}, f2 \in {f \in valid1 : f[1].kind # "vanish"}}
     IN valid1 \cup (IF Pairs THEN {p \in pairs : p[1].k < p[2].k} ELSE {})
 
 \* ---- what the property forbids for a case ---------------------------------------------------------
@@ -57,6 +59,7 @@ Always(scn) == [panic |-> FALSE, brokenCookie |-> FALSE]
 \* If the implementation repeats a failed operation and the repeat succeeds (a retry), the operation did not fail in the
 \* sense of the property and the operation sequence is no longer the scenario's: only Always applies (reported as diverged).
 Req(scn, fs) ==
+    IF fs[1].kind = "vanish" THEN Always(scn) ELSE
     [panic |-> FALSE, brokenCookie |-> FALSE]
     @@ (IF scn \in {"request", "refresh"} /\ MustNotServe(scn, fs) THEN [served |-> FALSE] ELSE <<>>)
     @@ (IF MustNotSetCookie(scn, fs) THEN [session |-> [not |-> "set"]] ELSE <<>>)
